@@ -286,6 +286,33 @@ func TestC09(t *testing.T) {
 			}
 			c.Ev.MarkExhaustive("every Unicode scalar value alone, between a…b, between 1…2, inside a string, inside a line comment and inside a block comment")
 		})
+		// a code point straight behind each character that can begin a two-character token, behind a digit
+		// and a point, behind a quote, and in front of each of them: every code point below U+3000 and, in
+		// all planes, every code point whose low 8 or low 16 bits spell an ASCII character
+		c.Sub("codepoint-next-to-operator", func(s *Sub) {
+			var k int64
+			prefixes := []rune{'/', '*', '=', '!', '<', '>', '&', '|', '.', '-', '+', '"', '_'}
+			for r := rune(1); r <= 0x10FFFF; r++ {
+				if r >= 0xD800 && r <= 0xDFFF {
+					continue
+				}
+				if !(r < 0x3000 || r&0xFF < 0x80 && r > 0xFF && (r&0xFF == '/' || r&0xFF == '*' || r&0xFF == '=' || r&0xFF == '<' || r&0xFF == '>' || r&0xFF == '&' || r&0xFF == '|' || r&0xFF == '"' || r&0xFF == '\n' || r&0xFF == ' ' || r&0xFF == '.' || r&0xFF == '0' || r&0xFF == 'a' || r&0xFF == ';') || r&0xFFFF < 0x80) {
+					continue
+				}
+				k++
+				if !c.Mine(k) {
+					continue
+				}
+				for _, p := range prefixes {
+					c.c09One(s, "codepoint-next-to-operator", []rune{'x', ' ', p, r, ' ', 'y'}, true)
+					c.c09One(s, "codepoint-next-to-operator", []rune{'x', ' ', r, p, ' ', 'y'}, true)
+				}
+				c.c09One(s, "codepoint-next-to-operator", []rune{'1', '.', r, '5'}, true)
+				c.c09One(s, "codepoint-next-to-operator", []rune{'1', r, '.', '5'}, true)
+				c.c09One(s, "codepoint-next-to-operator", []rune{'/', '*', ' ', '*', r, '/', ' ', '*', '/', 'x'}, true)
+			}
+			c.Ev.MarkExhaustive("every code point below U+3000, and every code point of any plane whose low 8 or 16 bits spell an ASCII character, straight behind and straight in front of 13 token-starting characters")
+		})
 		c.Sub("enum-fragments", func(s *Sub) {
 			for n := 1; n <= maxFrags; n++ {
 				c.enumTuples(len(c09Frags), n, func(idx []int) {
